@@ -638,28 +638,21 @@ class DiskFile(VirtualFileContainer):
         if not allocated_granules:
             return
 
-        granule = allocated_granules[0]
-        allocated_granules = allocated_granules[1:]
-        pointer = self.seek_granule(granule)
-        skip_bytes = 0
-
+        # Lay the file out as a single stream of preamble, data and postamble, and cut it
+        # into granule sized pieces so that nothing is written past the end of a granule
+        stream = []
         if first_granule and preamble:
-            pointer = preamble.write(self.buffer, pointer)
-            skip_bytes += preamble.length
+            stream = [0x00] * preamble.length
+            preamble.write(stream, 0)
+        stream.extend(file_data)
+        if postamble:
+            stream.extend([0x00] * postamble.length)
+            postamble.write(stream, len(stream) - postamble.length)
 
-        if len(file_data) < (DiskConstants.HALF_TRACK_LEN - skip_bytes):
-            pointer = self.write_bytes_to_buffer(pointer, file_data)
-            if postamble:
-                postamble.write(self.buffer, pointer)
-        else:
-            self.write_bytes_to_buffer(pointer, file_data[:DiskConstants.HALF_TRACK_LEN - skip_bytes])
-            self.write_to_granules(
-                file_data[DiskConstants.HALF_TRACK_LEN - skip_bytes:],
-                allocated_granules,
-                None,
-                postamble,
-                first_granule=False
-            )
+        for index, granule in enumerate(allocated_granules):
+            chunk_start = index * DiskConstants.HALF_TRACK_LEN
+            chunk = stream[chunk_start:chunk_start + DiskConstants.HALF_TRACK_LEN]
+            self.write_bytes_to_buffer(self.seek_granule(granule), chunk)
 
     def add_file(self, coco_file):
         """
